@@ -145,6 +145,7 @@ def run_indices(pid, tier, master, indices, want_plans=False):
             out = execute_plan(mod, plan)
             out["index"] = i
             out["seed"] = seed
+            out["pid"] = os.getpid()
             upd = out.pop("plan_update", None)
             if upd and out["violations"]:
                 plan = dict(plan, **upd)
@@ -228,6 +229,11 @@ def run_check(pid, tier, master, n_runs=None, workers=None, out=sys.stdout):
     except Exception as e:  # noqa: BLE001 - broken pool, watchdog, ...
         harness_errors.append("worker pool failed: " + repr(e))
     results.sort(key=lambda r: r["index"])
+    # pool workers leave through os._exit (no atexit): remove their scratch roots here
+    import shutil
+
+    for wpid in {r.get("pid") for r in results if r.get("pid") and r.get("pid") != os.getpid()}:
+        shutil.rmtree("/dev/shm/cav-%08x" % wpid, ignore_errors=True)
     for r in results:
         if r.get("harness_error"):
             harness_errors.append(f"run {r['index']}: {r['harness_error']}")
